@@ -31,6 +31,7 @@ type tfRec struct {
 	Out     eng.Bytes `json:"out"`
 	Changed bool      `json:"changed"`
 	Out2    eng.Bytes `json:"out2"`
+	Later   eng.Bytes `json:"outLater"`
 	InAfter eng.Bytes `json:"inAfter"`
 	Aliased bool      `json:"aliased"`
 	Err     bool      `json:"err"`
@@ -47,6 +48,13 @@ func nb(b []byte) eng.Bytes {
 
 // callTf evaluates a transformation on a private copy of the input whose bytes we can inspect afterwards.
 func callTf(name string, in []byte) (out string, changed bool, errd bool, inAfter []byte, panicked string) {
+	out, _, changed, errd, inAfter, panicked = callTfRaw(name, in)
+	return
+}
+
+// callTfRaw also hands back the value exactly as the transformation returned it (not copied), so that
+// it can be read again later.
+func callTfRaw(name string, in []byte) (out, raw string, changed bool, errd bool, inAfter []byte, panicked string) {
 	defer func() {
 		if r := recover(); r != nil {
 			panicked = fmt.Sprint(r)
@@ -54,7 +62,7 @@ func callTf(name string, in []byte) (out string, changed bool, errd bool, inAfte
 	}()
 	t, err := transformations.GetTransformation(name)
 	if err != nil {
-		return "", false, true, in, "unknown transformation " + name
+		return "", "", false, true, in, "unknown transformation " + name
 	}
 	buf := append([]byte{}, in...)
 	s := ""
@@ -63,12 +71,12 @@ func callTf(name string, in []byte) (out string, changed bool, errd bool, inAfte
 	}
 	o, ch, e := t(s)
 	out = strings.Clone(o)
-	return out, ch, e != nil, append([]byte{}, buf...), ""
+	return out, o, ch, e != nil, append([]byte{}, buf...), ""
 }
 
 // C14: transformations are total, pure functions with sound change reports.
 func C14(run *vf.Run) {
-	run.Rule = "Transform.tla: byte-wise reference definitions (lowercase, uppercase, length, hexEncode/hexDecode, urlDecode, removeNulls, replaceNulls, removeWhitespace, compressWhitespace, trim*, none) and the laws every transformation obeys (Pure, InputIntact, ChangeSound, inverse pairs hexDecode.hexEncode / base64Decode.base64Encode / urlDecode.urlEncode = id, idempotence of trimming / whitespace / NUL removal / case mapping). Transform_MC enumerates every byte string over an adversarial alphabet (letters of both cases, space, tab, NUL, %, +, hex digits, backslash, &, the two bytes of a no-break space 0xC2 0xA0 - so that deleting a byte between them creates one -, 0xC3, 0xFF) up to MaxLen - truncated escapes at every offset are in it by construction - plus every string of length 4 over the delimiters of character references and escapes {& # 0 x ; a \\ u}, and TLC checks the model's own laws; the real registered transformations (all 32) are evaluated on every input on a private buffer, the function table (input, output, changed flag, second evaluation, input bytes afterwards, compositions) is recorded and Transform_Trace checks every law on every record; md5 / sha1 / length are compared with Go's crypto and strconv. Non-trivial = record whose output differs from its input"
+	run.Rule = "Transform.tla: byte-wise reference definitions (lowercase, uppercase, length, hexEncode/hexDecode, urlDecode, removeNulls, replaceNulls, removeWhitespace, compressWhitespace, trim*, none) and the laws every transformation obeys (Pure, OutputStable - a returned value reads the same after the transformation ran again on other inputs -, InputIntact, ChangeSound, inverse pairs hexDecode.hexEncode / base64Decode.base64Encode / urlDecode.urlEncode = id, idempotence of trimming / whitespace / NUL removal / case mapping). Transform_MC enumerates every byte string over an adversarial alphabet (letters of both cases, space, tab, NUL, %, +, hex digits, backslash, &, the two bytes of a no-break space 0xC2 0xA0 - so that deleting a byte between them creates one -, 0xC3, 0xFF) up to MaxLen - truncated escapes at every offset are in it by construction - plus every string of length 4 over the delimiters of character references and escapes {& # 0 x ; a \\ u}, and TLC checks the model's own laws; the real registered transformations (all 32) are evaluated on every input on a private buffer, the function table (input, output, changed flag, second evaluation, the first output read again after evaluations of other inputs, input bytes afterwards, compositions) is recorded and Transform_Trace checks every law on every record; md5 / sha1 / length are compared with Go's crypto and strconv. Non-trivial = record whose output differs from its input"
 	run.Exhaustive = true
 	run.Assume("md5 / sha1 / base64 reference values come from the Go standard library (trusted base)")
 	run.Assume("lowercase / uppercase / removeWhitespace / compressWhitespace reference equality is asserted on ASCII inputs only (on invalid UTF-8 the standard definition is ambiguous)")
@@ -146,18 +154,22 @@ func C14(run *vf.Run) {
 	inverse := [][2]string{{"hexEncode", "hexDecode"}, {"base64Encode", "base64Decode"}, {"urlEncode", "urlDecode"}}
 	for ii, in := range inputs {
 		for _, name := range allTransformations {
-			out, ch, errd, inAfter, p := callTf(name, in)
+			out, raw, ch, errd, inAfter, p := callTfRaw(name, in)
 			if p != "" {
 				report("panic", name, in, p)
 				continue
 			}
+			// the same transformation on other inputs, then the first result is read again
+			callTf(name, append(append([]byte{}, in...), 'z'))
+			callTf(name, append([]byte{'Q'}, in...))
+			later := strings.Clone(raw)
 			out2, _, _, _, _ := callTf(name, in)
 			nt := ""
 			if out != string(in) {
 				nt = name + "\x00" + string(in)
 			}
 			run.Eval(nt)
-			emit(tfRec{Name: name, In: nb(in), Out: nb([]byte(out)), Changed: ch, Out2: nb([]byte(out2)), InAfter: nb(inAfter), Err: errd, Comp: "", Base: eng.Bytes{}})
+			emit(tfRec{Name: name, In: nb(in), Out: nb([]byte(out)), Changed: ch, Out2: nb([]byte(out2)), Later: nb([]byte(later)), InAfter: nb(inAfter), Err: errd, Comp: "", Base: eng.Bytes{}})
 			if ii%577 == 0 && name == "urlDecode" {
 				run.Sample(map[string]any{"transformation": name, "input": string(in), "output": out, "changed": ch})
 			}
@@ -178,7 +190,7 @@ func C14(run *vf.Run) {
 			}
 			if idem[name] {
 				o2, _, _, _, _ := callTf(name, []byte(out))
-				emit(tfRec{Name: name, In: nb(in), Out: nb([]byte(o2)), Out2: nb([]byte(o2)), InAfter: nb(in), Comp: "twice", Base: nb([]byte(out))})
+				emit(tfRec{Name: name, In: nb(in), Out: nb([]byte(o2)), Out2: nb([]byte(o2)), Later: nb([]byte(o2)), InAfter: nb(in), Comp: "twice", Base: nb([]byte(out))})
 			}
 		}
 		for _, pr := range inverse {
@@ -187,7 +199,7 @@ func C14(run *vf.Run) {
 			if p1 != "" || p2 != "" {
 				continue
 			}
-			emit(tfRec{Name: pr[0] + "+" + pr[1], In: nb(in), Out: nb([]byte(back)), Out2: nb([]byte(back)), InAfter: nb(in), Err: e1 || e2, Comp: "inverse", Base: nb([]byte(mid))})
+			emit(tfRec{Name: pr[0] + "+" + pr[1], In: nb(in), Out: nb([]byte(back)), Out2: nb([]byte(back)), Later: nb([]byte(back)), InAfter: nb(in), Err: e1 || e2, Comp: "inverse", Base: nb([]byte(mid))})
 		}
 	}
 	run.Logf("recorded function table: %d records; validating the laws with TLC (Transform_Trace)", nrec)
